@@ -69,7 +69,8 @@ def g3_buffer_stores(F, S):
                     fields = F.struct_fields(short(rv["path"])) or []
                     if any(x["ty"]["s"].startswith("std::boxed::Box<[") for x in fields):
                         n += 1
-                        if f.name != "new":
+                        in_ctor = f.name == "new" or (f.kind == "Closure" and (f.d.get("parent") or "").endswith("::new"))
+                        if not in_ctor:
                             S.bad("G3", "buffer-aggregate", f.label, "%s builds a %s (with a buffer) outside its constructor" % (f.label, short(rv["path"])), loc(st["span"]))
                         else:
                             S.ok("G3", "%s aggregate in %s" % (short(rv["path"]), f.label))
